@@ -86,20 +86,56 @@ fn reset_budget() {
     assert!(r.is_pending());
 }
 
-fn run_impl(cap: usize, ops: &[Op]) -> Vec<String> {
+/// The wakers of one half: every poll brings a waker of its own (as when a half is polled by hand and then awaited,
+/// or moved to another task). `registered` is the waker of the latest poll that really parked (Pending without
+/// waking itself): the one a wake-up owed to this half has to reach. A wake-up that goes to an older waker of the
+/// half reaches nobody and is not counted.
+struct Half {
+    wakers: Vec<Arc<Count>>,
+    registered: Option<usize>,
+}
+impl Half {
+    fn new() -> Half {
+        Half { wakers: vec![], registered: None }
+    }
+    fn fresh(&mut self) -> (usize, Waker) {
+        let c = Arc::new(Count(AtomicU64::new(0)));
+        self.wakers.push(c.clone());
+        (self.wakers.len() - 1, Waker::from(c))
+    }
+    fn counts(&self) -> Vec<u64> {
+        self.wakers.iter().map(|c| c.0.load(Ordering::SeqCst)).collect()
+    }
+    /// (wake-ups that reached the registered waker or the waker of this very poll, wake-ups that went elsewhere)
+    fn delta(&self, before: &[u64], own: Option<usize>) -> (u64, u64) {
+        let mut good = 0;
+        let mut stale = 0;
+        for (i, c) in self.wakers.iter().enumerate() {
+            let d = c.0.load(Ordering::SeqCst) - before.get(i).copied().unwrap_or(0);
+            if Some(i) == self.registered || Some(i) == own {
+                good += d;
+            } else {
+                stale += d;
+            }
+        }
+        (good, stale)
+    }
+}
+
+fn run_impl(cap: usize, ops: &[Op], stale_total: &mut u64) -> Vec<String> {
     reset_budget();
     let (tx, rx) = byte_channel(NonZeroUsize::new(cap).unwrap());
     let mut tx: Option<ByteWriter> = Some(tx);
     let mut rx: Option<ByteReader> = Some(rx);
-    let rc = Arc::new(Count(AtomicU64::new(0)));
-    let wc = Arc::new(Count(AtomicU64::new(0)));
-    let rw = Waker::from(rc.clone());
-    let ww = Waker::from(wc.clone());
+    let mut rh = Half::new();
+    let mut wh = Half::new();
     let mut outs = vec![];
     let mut step = 0usize;
     for op in ops {
-        let r0 = rc.0.load(Ordering::SeqCst);
-        let w0 = wc.0.load(Ordering::SeqCst);
+        let r0 = rh.counts();
+        let w0 = wh.counts();
+        let mut own_r: Option<usize> = None;
+        let mut own_w: Option<usize> = None;
         let res: String = match op {
             Op::PollRead(n) => match rx.as_mut() {
                 None => "RSkip".into(),
@@ -111,6 +147,8 @@ fn run_impl(cap: usize, ops: &[Op]) -> Vec<String> {
                     let mut store = vec![0u8; prefill + *n];
                     let mut buf = ReadBuf::new(&mut store);
                     buf.put_slice(&vec![0xEEu8; prefill]);
+                    let (i, rw) = rh.fresh();
+                    own_r = Some(i);
                     let mut cx = Context::from_waker(&rw);
                     match Pin::new(rx).poll_read(&mut cx, &mut buf) {
                         Poll::Pending => "RPending".into(),
@@ -128,6 +166,8 @@ fn run_impl(cap: usize, ops: &[Op]) -> Vec<String> {
             Op::PollWrite(bs) => match tx.as_mut() {
                 None => "RSkip".into(),
                 Some(tx) => {
+                    let (i, ww) = wh.fresh();
+                    own_w = Some(i);
                     let mut cx = Context::from_waker(&ww);
                     match Pin::new(tx).poll_write(&mut cx, bs) {
                         Poll::Pending => "RPending".into(),
@@ -139,6 +179,8 @@ fn run_impl(cap: usize, ops: &[Op]) -> Vec<String> {
             Op::Flush => match tx.as_mut() {
                 None => "RSkip".into(),
                 Some(tx) => {
+                    let (i, ww) = wh.fresh();
+                    own_w = Some(i);
                     let mut cx = Context::from_waker(&ww);
                     match Pin::new(tx).poll_flush(&mut cx) {
                         Poll::Pending => "RPending".into(),
@@ -150,6 +192,8 @@ fn run_impl(cap: usize, ops: &[Op]) -> Vec<String> {
             Op::Shutdown => match tx.as_mut() {
                 None => "RSkip".into(),
                 Some(tx) => {
+                    let (i, ww) = wh.fresh();
+                    own_w = Some(i);
                     let mut cx = Context::from_waker(&ww);
                     match Pin::new(tx).poll_shutdown(&mut cx) {
                         Poll::Pending => "RPending".into(),
@@ -177,8 +221,22 @@ fn run_impl(cap: usize, ops: &[Op]) -> Vec<String> {
                 "ROk".into()
             }
         };
-        let dr = rc.0.load(Ordering::SeqCst) - r0;
-        let dw = wc.0.load(Ordering::SeqCst) - w0;
+        let (dr, sr) = rh.delta(&r0, own_r);
+        let (dw, sw) = wh.delta(&w0, own_w);
+        *stale_total += sr + sw;
+        // the poll really parked (Pending, its own waker untouched): its waker is the one to wake from now on
+        if res == "RPending" {
+            if let Some(i) = own_r {
+                if rh.wakers[i].0.load(Ordering::SeqCst) == 0 {
+                    rh.registered = Some(i);
+                }
+            }
+            if let Some(i) = own_w {
+                if wh.wakers[i].0.load(Ordering::SeqCst) == 0 {
+                    wh.registered = Some(i);
+                }
+            }
+        }
         outs.push(format!("({}, {}%N, {}%N)", res, dr, dw));
     }
     outs
@@ -213,10 +271,11 @@ fn main() {
     let mut distinct = BTreeSet::new();
     let mut nontrivial = 0u64;
     let mut samples = vec![];
+    let mut stale_wakes = 0u64;
 
     let mut emit = |cap: usize, ops: &[Op], w: &mut CaseWriter| {
         // a panic inside the channel is a result too (the model never gives it, so the case fails the comparison)
-        let outs = catch(std::panic::AssertUnwindSafe(|| run_impl(cap, ops))).unwrap_or_else(|m| vec![format!("(RBroken (* PANIC {} *), 0%N, 0%N)", m.replace("*)", "* )"))]);
+        let outs = catch(std::panic::AssertUnwindSafe(|| run_impl(cap, ops, &mut stale_wakes))).unwrap_or_else(|m| vec![format!("(RBroken (* PANIC {} *), 0%N, 0%N)", m.replace("*)", "* )"))]);
         let term = format!(
             "({}%nat, {}, {})",
             cap,
@@ -346,7 +405,8 @@ fn main() {
         ("distinct_nontrivial", J::I(nontrivial as i128)),
         ("exhaustive_lists", J::I(exhaustive as i128)),
         ("exhaustive_depth", J::I(depth as i128)),
-        ("rule", J::s("corpus; every op list to the depth bound over cap in {1,2,3}, request sizes {0,1,2,4}, flush/shutdown/drops; random lists of length 4..60 with cap 1..64 (a third with coop budget changes); non-trivial = a side genuinely parks (Pending, no self-wake) and a later op delivers a wake; distinct by (cap, op list)")),
+        ("rule", J::s("corpus; every op list to the depth bound over cap in {1,2,3}, request sizes {0,1,2,4}, flush/shutdown/drops; random lists of length 4..60 with cap 1..64 (a third with coop budget changes); non-trivial = a side genuinely parks (Pending, no self-wake) and a later op delivers a wake; distinct by (cap, op list); every poll brings a waker of its own: a wake-up counts for a half only when it reaches the waker of that half's latest poll that really parked (or the waker of the very poll that yields), so a wake-up sent to an older waker of the half is a lost wake-up")),
+        ("wakeups_sent_to_a_superseded_waker", J::I(stale_wakes as i128)),
         ("op_kinds", J::counts(&kinds)),
         ("result_kinds", J::counts(&results)),
         ("capacities", J::counts(&caps)),
